@@ -16,7 +16,7 @@ RULE = ("enumerated cells: (100)/(110)/(111)/(001) slabs of the 65 reference ele
         "(111)) and 16 compound prototypes x 3-5 layers x 0-2 adsorbates (species absent from the slab, on top of a surface "
         "atom at covalent bonding distance + 0.2 A), lateral size >= 9 A, fully periodic with 10 A vacuum; monolayers "
         "(graphene, h-BN, 2H/1T MX2) 3x3-6x6; presentation = random SO(3) rotation, translation, permutation from the cell's "
-        "pool for VERIF_SEED mod 8. Cells failing the independent bonding/overlap/connectivity precondition are discarded "
+        "pool for VERIF_SEED mod 4. Cells failing the independent bonding/overlap/connectivity precondition are discarded "
         "and counted. thorough = all cells, quick = VERIF_SEED-chosen subset + listed findings' cells. distinct = cell keys judged")
 ASSUMPTIONS = ["ASE builders", "brute-force bonding precondition (ASE covalent radii)", "default Classifier parameters"]
 CASE_TIMEOUT = 900
@@ -34,7 +34,7 @@ def floors(tier):
 
 def gen_cases(tier, seed):
     universe = slabs.c18_cells()
-    sc = seed % 8
+    sc = seed % 4
     if tier == "thorough":
         chosen = universe
     else:
